@@ -24,6 +24,10 @@ import core
 
 PROP = "C10"
 IMPORTS = "C10.Model"
+PRELUDE = """
+Definition opt_close_scaled (tol s : Qc) (m : option (list (list Qc))) (impl : list (list Qc)) : bool :=
+  opt_close tol (option_map (map (map (Qcmult s))) m) (map (map (Qcmult s)) impl).
+"""
 SHARD = 8
 TOL = "(q 1 10000)"
 RULE = ("bp/slope: dense nets (input 2-5, 1-4 dense layers) and conv nets (input up to 5x5x2, 1-2 Conv2D with kernel 1-2, "
@@ -172,7 +176,8 @@ def gen_bp(rng, slope=False):
     n = rng.choice([1, 2, 3, 3])
     dim = int(np.prod(shape))
     return dict(stream="slope" if slope else "bp", method=rng.choice(["DeconvNet", "GuidedBackprop"]), shape=shape,
-                layers=layers, xs=[grid(rng, dim) for _ in range(n)], ts=gen_targets(rng, n, ncls), bs=gen_bs(rng, n))
+                layers=layers, xs=[grid(rng, dim) for _ in range(n)], ts=gen_targets(rng, n, ncls), bs=gen_bs(rng, n),
+                reweight=(not slope and rng.random() < 0.3))
 
 
 def gen_cam(rng):
@@ -192,9 +197,16 @@ def gen_cam(rng):
                 output_layer=None, xs=[grid(rng, dim) for _ in range(n)], ts=gen_targets(rng, n, ncls), bs=gen_bs(rng, n))
     # combine with output_layer: the explained model is truncated at layers[-2], the conv layer is still chosen in the
     # USER's model (a negative conv_layer index counts from the end of the full model)
+    # small real-valued targets (confident heads, small gradients): the channel weights of Grad-CAM++ must not collapse
+    if rng.random() < 0.3:
+        k = rng.choice([10, 12, 14, 16])
+        case["tscale"] = k
+        case["ts"] = [[v * 2.0 ** -k for v in t] for t in case["ts"]]
     if total - 2 > max(cands) and len(shp[total - 2]) == 1 and rng.random() < 0.45:
         case["output_layer"] = rng.choice([-2, layers[total - 3]["name"]])
         case["ts"] = gen_targets(rng, n, shp[total - 2][0])
+        if case.get("tscale"):
+            case["ts"] = [[v * 2.0 ** -case["tscale"] for v in t] for t in case["ts"]]
     return case
 
 
@@ -337,6 +349,13 @@ def run_impl(case):
         res["maps"] = rows(out, n)
         res["clone_out"] = rows(expl.model(xs), n)
         res["clone_distinct"] = expl.model is not model
+        if case.get("reweight"):
+            # history: the user changes the weights of the SAME model object (further training), then builds a new explainer
+            model.set_weights([2.0 * w for w in model.get_weights()])
+            expl2 = getattr(xa, case["method"])(model, batch_size=case["bs"], reducer=None)
+            res["maps2"] = rows(np.asarray(expl2.explain(xs, ts)), n)
+            res["clone_out2"] = rows(expl2.model(xs), n)
+            model.set_weights([0.5 * w for w in model.get_weights()])
     else:
         kw = {} if ol is None else dict(output_layer=ol)
         expl = getattr(xa, case["method"])(full_model, batch_size=case["bs"], conv_layer=case["conv_layer"], **kw)
@@ -457,6 +476,19 @@ def cam_model(case):
             f"{core.cqlist2(case['ts'])})")
 
 
+def doubled(case):
+    """the same net with every kernel and bias doubled (model.set_weights([2 * w ...]))"""
+    c = copy.deepcopy(case)
+    for l in c["layers"]:
+        if l["k"] == "dense":
+            l["W"] = [[2 * v for v in row] for row in l["W"]]
+            l["b"] = [2 * v for v in l["b"]]
+        elif l["k"] == "conv":
+            l["kernel"] = (2 * np.array(l["kernel"])).tolist()
+            l["b"] = [2 * v for v in l["b"]]
+    return c
+
+
 def policy(case):
     return "PDeconv" if case["method"] == "DeconvNet" else "PGuided"
 
@@ -477,10 +509,21 @@ def coq_term(case, res, faithful=False):
             return "false"
         body = (f"qlist2_eqb (relu_explainer {policy(case)} net {coq_bs(case)} {xs} {ts}) {core.cqlist2(res['maps'])} && "
                 f"qlist2_eqb (map (clone_forward {policy(case)} net) {xs}) {core.cqlist2(res['clone_out'])} && {common}")
+        if case.get("reweight") and not faithful:
+            if "maps2" not in res:
+                return "false"
+            c2 = doubled(case)
+            body += (f" && (let net := {coq_net(c2)} in "
+                     f"qlist2_eqb (relu_explainer {policy(case)} net {coq_bs(case)} {xs} {ts}) {core.cqlist2(res['maps2'])} && "
+                     f"qlist2_eqb (map (clone_forward {policy(case)} net) {xs}) {core.cqlist2(res['clone_out2'])})")
     else:
         if case["method"] == "GradCAMPP" and res["pp_margin"] < 1e-2:
             return None
-        body = f"opt_close {TOL} {cam_model(case)} {core.cqlist2(res['maps'])} && {common}"
+        if case.get("tscale"):
+            sc = core.cq(2.0 ** case["tscale"])
+            body = f"opt_close_scaled {TOL} {sc} {cam_model(case)} {core.cqlist2(res['maps'])} && {common}"
+        else:
+            body = f"opt_close {TOL} {cam_model(case)} {core.cqlist2(res['maps'])} && {common}"
     return f"(let net := {coq_net(explained(case))} in {body})%bool"
 
 
